@@ -74,6 +74,11 @@ func listenScenario(sp listenSpec) *explore.Scenario {
 			}
 			script = append(script, notification("op1", fmt.Sprintf("v%d", i), e))
 			script = append(script, notification("other", "y", "error of another request"))
+			// another requester on the shared topic may use another result type: its replies do not even
+			// decode into ours (a number where we have a string; a truncated document)
+			foreign := notification("other", "z", "")
+			foreign.Payload = [][]byte{[]byte(`{"val":5}`), []byte(`{"val":`)}[i%2]
+			script = append(script, foreign)
 		}
 		sub := hx.NewScriptSub("notifications", map[string][]*message.Message{"reply": script})
 		finished := 0
